@@ -227,6 +227,22 @@ def facts():
     dj.append("S::EntryViews<'a>:view::Disjoint<S::Views<'a>,R,DisjointIndices>" in tk)
     dj.append("P::EntryViews<'a>:view::Disjoint<P::Views<'a>,R,DisjointIndices>" in tk)
     f["entry_views_disjoint_bound_everywhere"] = all(dj)
+    # what `Disjoint` is made of (query/view/disjoint.rs): each side's MUTABLY viewed components are taken out of the
+    # registry (`MutableInverse`), and the other side's views must all be found in what is left.  Every head of a view
+    # list has one impl; the three heads that borrow nothing mutably pass the registry on to the tail unchanged, the
+    # two mutable ones pass on the remainder after `Get<Component, Index>` — and every one of them goes on into the tail.
+    dsrc = norm(strip_comments(read("src/query/view/disjoint.rs").split("#[cfg(test)]")[0]))
+    keep = "typeResult=<ViewsasMutableInverse<Registry,Indices>>::Result;"
+    take = "typeResult=<ViewsasMutableInverse<<RegistryasGet<Component,Index>>::Remainder,Indices>>::Result;"
+    heads = {"(&Component,Views)": keep, "(Option<&Component>,Views)": keep, "(entity::Identifier,Views)": keep,
+             "(&mutComponent,Views)": take, "(Option<&mutComponent>,Views)": take}
+    impls = re.findall(r"impl<[^{]*?MutableInverse<Registry,[^{]*?>for(\([^{]*?\)|view::Null)(?:where[^{]*?)?\{([^}]*)\}", dsrc)
+    found = {h: b for h, b in impls}
+    mi = (set(found) == set(heads) | {"view::Null"} and all(found[h] == b for h, b in heads.items())
+          and found.get("view::Null") == "typeResult=Registry;")
+    sealed = ("OtherViews:view::Views<'a>+MutableInverse<Registry,InverseIndices>,OtherViews::Result:ContainsViews<'a,Views,Indices>,"
+              "Views:view::Views<'a>+MutableInverse<Registry,OppositeInverseIndices>,Views::Result:ContainsViews<'a,OtherViews,OppositeIndices>,")
+    f["disjoint_takes_out_exactly_the_mutable_views"] = bool(mi and sealed in dsrc)
     wq = sig("src/world/mod.rs", "query")
     m = re.search(r"&'(\w+)mutself", wq)
     f["world_query_borrows_receiver"] = bool(m) and ("result::Iter<'%s," % m.group(1)) in wq and ("view::Views<'%s>" % m.group(1)) in wq
@@ -268,7 +284,7 @@ def emit(f):
               "world_send_needs_components_send", "world_sync_needs_components_sync", "iter_send_needs_views_send",
               "entries_send_needs_views_send", "parview_ref_needs_sync", "parview_mut_needs_send", "parviews_need_send",
               "world_entry_query_borrows_receiver", "entries_entry_query_borrows_receiver", "world_query_borrows_receiver",
-              "view_resources_borrows_receiver", "get_mut_borrows_receiver", "entry_views_disjoint_bound_everywhere",
+              "view_resources_borrows_receiver", "get_mut_borrows_receiver", "entry_views_disjoint_bound_everywhere", "disjoint_takes_out_exactly_the_mutable_views",
               "wb_push", "wb_buffer_push", "wb_extend", "wb_reserve", "wb_shrink", "wb_other",
               "de_row_pops", "de_row_complete_flag",
               "task_system_self_send", "task_system_views_send", "task_system_res_send", "task_system_entry_send",
